@@ -130,6 +130,17 @@ func checkC01(c *Ctx) {
 			k1, k2 := fc.K.Key(a[1]), fc.K.Key(a[2])
 			ok := k1 == "p1" && committedBlock != nil && (strings.HasPrefix(k2, "(*hs/protocol.ViewStates).CommittedBlock(") ||
 				baseView == "p2" && strings.HasPrefix(k2, kBlockView+"(*hs/protocol.ViewStates).CommittedBlock("))
+			if !ok && committedBlock != nil {
+				// the base may be read by TryCommit and handed down: judged in TryCommit's terms
+				for _, ds := range deepSites(NewFlow(p, tryCommit), func(cc *ssa.CallCommon) bool { return calleeIs(cc, commitInner) }, 0) {
+					if ds.Site != calls[0] || len(ds.Args) < 3 {
+						continue
+					}
+					r1, r2 := ds.Args[1], ds.Args[2]
+					ok = strings.Contains(r1, "CommitRuler).CommitRule(") && (strings.HasPrefix(r2, "(*hs/protocol.ViewStates).CommittedBlock(") ||
+						baseView == "p2" && strings.HasPrefix(r2, kBlockView+"(*hs/protocol.ViewStates).CommittedBlock("))
+				}
+			}
 			c.Check(ok, "C01.4", "commit: base is the current committed block", p.Pos(calls[0].Pos()),
 				"commitInner(block, viewStates.CommittedBlock())", "commitInner called with ("+k1+", "+k2+")")
 		}
